@@ -2,10 +2,10 @@ package gosym
 
 import (
 	"fmt"
-	"runtime"
-	"runtime/debug"
 	"go/types"
 	"os"
+	"runtime"
+	"runtime/debug"
 	"strings"
 
 	"golang.org/x/tools/go/packages"
